@@ -96,7 +96,10 @@ class Interp:
             el, valid = self.element(op["kind"])
             try:
                 if self.t == "emg":
-                    self.b.addSignal(el)
+                    if op.get("channel") == "explicit":
+                        self.b.addSignal(el, channel=1000 + self.counter)
+                    else:
+                        self.b.addSignal(el)
                 else:
                     self.b.add_track(el)
                 raised = None
@@ -181,7 +184,7 @@ def inits(t):
 
 def ops(t):
     kind = st.sampled_from(["right", "right", "right"] + KINDS_BAD)
-    add = st.fixed_dictionaries({"op": st.just("add"), "kind": kind})
+    add = st.fixed_dictionaries({"op": st.just("add"), "kind": kind, "channel": st.sampled_from(["auto", "explicit"])})
     if t == "emg":
         return add
     elems = st.lists(st.sampled_from(["right"] * 6 + KINDS_BAD), max_size=6)
